@@ -159,7 +159,10 @@ class Setters(History):
         return {'set_dr': {'value': sp, 'probe': probe},
                 'set_dk': {'value': sp, 'probe': probe},
                 'set_length': {'value': specs.length(1024), 'probe': probe},
-                'roundtrip': {'array': specs.array_desc()}}
+                'roundtrip': {'array': specs.array_desc()},
+                # continue with an independent copy of the Domain (what PRISM.__init__ does with the System's domain); the
+                # original is kept and must keep describing its own grid whatever is done to the copy afterwards
+                'copy': {'how': st.sampled_from(['deepcopy', 'pickle'])}}
 
     def probe(self, state, desc, out, which):
         """transform through the object and through a freshly constructed Domain(length, dr) of the model; no attribute of the
@@ -211,6 +214,12 @@ class Setters(History):
             state['length'] = op['value']
             state['nset'] += 1
             state['nlen'] += 1
+        elif op['op'] == 'copy':
+            import copy as _copy
+            import pickle as _pickle
+            state['left_behind'] = (dom, state['length'], state['dr'])
+            state['dom'] = _copy.deepcopy(dom) if op['how'] == 'deepcopy' else _pickle.loads(_pickle.dumps(dom))
+            state['ncopy'] = state.get('ncopy', 0) + 1
         elif op['op'] == 'roundtrip':
             self.probe(state, op['array'], out, state['nset'])
             if not out.violations and build.grid_ok(dom):
@@ -229,6 +238,10 @@ class Setters(History):
         sig = PID + '/setters/'
         ok = check_grid(state['dom'], state['length'], state['dr'], out, sig, dk_given)
         compare_fresh(state['dom'], state['length'], out, sig)
+        if state.get('left_behind') is not None and not out.violations:
+            d0, n0, dr0 = state['left_behind']
+            check_grid(d0, n0, dr0, out, sig + 'original-after-copy/')
+            compare_fresh(d0, n0, out, sig + 'original-after-copy/')
 
     def finish(self, state, trace, out):
         out.nontrivial = state['nset'] >= 2 and state['nlen'] >= 1
@@ -240,6 +253,10 @@ class Setters(History):
             out.label('has-roundtrip')
         if state.get('nprobe'):
             out.label('transform-directly-after-setter')
+        if state.get('ncopy'):
+            out.label('continued-on-a-copy')
+            if any(a == 'copy' and b.startswith('set_') for a, b in zip([o['op'] for o in trace], [o['op'] for o in trace][1:])):
+                out.label('setter-directly-after-copy')
         kinds = [o['op'] for o in trace]
         if any(a == 'roundtrip' and b.startswith('set_') for a, b in zip(kinds, kinds[1:])):
             out.label('setter-after-transform')
